@@ -328,6 +328,10 @@ class HistoryRun:
                 self.pending = op
                 if op.get('where') == 'thread':
                     return 'more'
+                if op.get('where') == 'process':
+                    self.pending = None
+                    self.rest_in_child(i, op, ops)
+                    return 'done'
                 op2, self.pending = self.pending, None
                 out = driver.restart_load(op2)
                 self.count('fault:restart-' + op.get('where', 'same'))
@@ -348,6 +352,73 @@ class HistoryRun:
                 self.step(len(ops), {'op': 'eval', 'a': a, 'form': 'cell', 'sweep': True},
                           self.check_eval, expected=exp)
         return 'done'
+
+    def rest_in_child(self, i, rop, ops):
+        """restart-fresh-process: the rest of the history runs in a brand-new interpreter
+        (other PYTHONHASHSEED) that has only what to_file made durable"""
+        from .world import run_child
+        driver = self.driver
+        rest, meta = [], []
+        for j in range(i + 1, len(ops)):
+            o = dict(ops[j])
+            if o['op'] == 'eval':
+                if self.expected[j][0] == 'err':
+                    self.count('probe:ref-raised-step-skipped')
+                    continue
+                if o.get('form') == 'range':
+                    o['members'] = self.st.range_members(o['rng'])
+            if o['op'] == 'restart' and o.get('where') == 'process':
+                o['where'] = 'same'
+            rest.append(o)
+            meta.append((j, self.expected.get(j)))
+        for a, exp in self.sweep_items:
+            if exp[0] == 'ok':
+                rest.append({'op': 'eval', 'a': a, 'form': 'cell', 'sweep': True})
+                meta.append((len(ops), exp))
+        payload = {'mode': 'driver', 'path': driver.pending_path,
+                   'plugins': list(self.plugins or ('sim.plugin',)), 'ops': rest,
+                   'tmpdir': driver.tmpdir,
+                   'cse_members': [a for a in self.st.dag.order if 'cse' in self.st.dag.cell[a]]}
+        res = run_child(payload)
+        self.count('fault:restart-process')
+        self.count('hashseed-of-child:' + str(res.get('hashseed')))
+        if 'exc' in res['load']:
+            self.violate('exception', i, rop, 'save/load works', res['load'],
+                         exc=res['load']['exc'], during='from_file')
+            return
+        self.events.append((i, 'loaded-in-child', rop['fmt']))
+        for o, (j, exp), out in zip(rest, meta, res.get('outcomes', [])):
+            if self.violation:
+                break
+            self.count('ops')
+            if out.get('skip'):
+                self.count('probe:skipped-cse-member-not-in-saved-model')
+                continue
+            if o['op'] == 'eval':
+                target = o.get('rng') if o.get('form') == 'range' else o['a']
+                self.count('evals')
+                self.events.append((j, 'eval', o.get('form', 'cell'), target, out.get('v'),
+                                    out.get('exc'), 'child'))
+                self.sig_items.append(('e', o.get('form', 'cell'), 'child'))
+                self.observe_eval(j, o, target, exp[1])
+                self.check_eval(self, j, o, target, exp[1], out)
+            elif o['op'] == 'set':
+                a = o['a']
+                wkind = classify_write(self.current(a), o['v'])
+                self.count('probe:write-' + wkind)
+                self.count('sets')
+                self.overrides[a] = o['v']
+                self.writes.append((j, a, wkind))
+                self.events.append((j, 'set', a, values.jsonable(o['v']), out.get('exc'), 'child'))
+                self.sig_items.append(('s', 'child'))
+                if 'exc' in out:
+                    self.violate('exception', j, o, 'set_value returns', out, exc=out['exc'])
+            elif o['op'] == 'restart':
+                self.count('fault:restart-same')
+                self.count('restart-fmt:' + o['fmt'])
+                if 'exc' in out:
+                    self.violate('exception', j, o, 'save/load works', out, exc=out['exc'],
+                                 during=out.get('during'))
 
     def step(self, i, op, check_eval, expected=None):
         driver = self.driver
